@@ -575,6 +575,8 @@ func (w *World) Finish(scenario string, meta map[string]any) []map[string]any {
 			m["leafOk"] = ev.LeafOK
 			m["sct"] = ev.SCT
 			m["sctId"] = ev.Note
+			m["http"] = ev.HTTP
+			m["retryAfter"] = ev.RetryAft
 		case "RoundEnd", "LoadEnd", "CreateEnd", "SequencerStopped":
 			m["class"] = ev.Class
 		case "LoadStart", "CreateStart":
